@@ -651,7 +651,7 @@ class real_power_conv(Conv):
             raise ConvException
 
         a, p = a.dest_number(), p.dest_number()
-        if a <= 0:
+        if a <= 0 or not isinstance(a, int):
             raise ConvException
 
         # Case 1: base is a composite number
